@@ -18,7 +18,10 @@
    [wrote] (the elements written), [dropped] (the element whose empty text made the consumer
    leave its loop), [at_stop] (= [pushed] at the moment stop() executed
    _stopping.request_stop(): the lines "accepted before stop"), [after_stop] (the pushes since
-   then). *)
+   then).
+   The std::ofstream is modelled as a buffer [obuf] that reaches the file [file] when it is
+   flushed (by endl after every line; the flush on destruction is outside the model): [file] is
+   what a reader of the file sees, and all theorems about "written" lines speak about it. *)
 From Coq Require Import ZArith List Bool Arith.
 From F8 Require Import C28.Spec_C28.
 Import ListNotations.
@@ -47,7 +50,8 @@ Record config := {
   cons : cpc;
   seqno : nat;                   (* _sequence *)
   oseqno : nat;                  (* _osequence *)
-  file : list (nat * text);      (* the log file: sequence field and text of each line *)
+  file : list (nat * text);      (* the log FILE, i.e. what has been flushed to it: sequence field and rest of each line *)
+  obuf : list (nat * text);      (* the ofstream's buffer: lines inserted into the stream but not yet flushed *)
   stopper : spc;
   pushed : list qelem;           (* ghost *)
   wrote : list qelem;            (* ghost *)
@@ -57,7 +61,7 @@ Record config := {
 
 Definition init (m : Z) (d : bool) (vf : valfn) (ps : list prog) : config :=
   {| mask := m; dirflag := d; valf := vf; prods := map (fun p => {| todo := p; pidx := O; rets := [] |}) ps;
-     queue := []; stopping := false; cons := CSample; seqno := O; oseqno := O; file := []; stopper := SIdle;
+     queue := []; stopping := false; cons := CSample; seqno := O; oseqno := O; file := []; obuf := []; stopper := SIdle;
      pushed := []; wrote := []; dropped := []; at_stop := []; after_stop := [] |}.
 
 (* _msg_queue.try_push(le): always succeeds *)
@@ -89,12 +93,12 @@ Definition step_prod (c : config) (i : nat) : config :=
             let x := {| q_src := Some (i, pidx ps); q_text := txt; q_val := valf c i (pidx ps) |} in
             let (q', r) := enqueue (queue c) x in
             {| mask := mask c; dirflag := dirflag c; valf := valf c; prods := upd (prods c) i {| todo := rest; pidx := S (pidx ps); rets := rets ps ++ [r] |};
-               queue := q'; stopping := stopping c; cons := cons c; seqno := seqno c; oseqno := oseqno c; file := file c;
+               queue := q'; stopping := stopping c; cons := cons c; seqno := seqno c; oseqno := oseqno c; file := file c; obuf := obuf c;
                stopper := stopper c; pushed := pushed c ++ [x]; wrote := wrote c; dropped := dropped c;
                at_stop := at_stop c; after_stop := g_after c x |}
           else
             {| mask := mask c; dirflag := dirflag c; valf := valf c; prods := upd (prods c) i {| todo := rest; pidx := S (pidx ps); rets := rets ps ++ [true] |};
-               queue := queue c; stopping := stopping c; cons := cons c; seqno := seqno c; oseqno := oseqno c; file := file c;
+               queue := queue c; stopping := stopping c; cons := cons c; seqno := seqno c; oseqno := oseqno c; file := file c; obuf := obuf c;
                stopper := stopper c; pushed := pushed c; wrote := wrote c; dropped := dropped c;
                at_stop := at_stop c; after_stop := after_stop c |}
       end
@@ -102,7 +106,7 @@ Definition step_prod (c : config) (i : nat) : config :=
 
 Definition set_cons (c : config) (k : cpc) : config :=
   {| mask := mask c; dirflag := dirflag c; valf := valf c; prods := prods c; queue := queue c; stopping := stopping c; cons := k; seqno := seqno c; oseqno := oseqno c;
-     file := file c; stopper := stopper c; pushed := pushed c; wrote := wrote c; dropped := dropped c;
+     file := file c; obuf := obuf c; stopper := stopper c; pushed := pushed c; wrote := wrote c; dropped := dropped c;
      at_stop := at_stop c; after_stop := after_stop c |}.
 
 (* the consumer thread:
@@ -125,10 +129,10 @@ Definition step_cons (c : config) : config :=
       | x :: q' =>
           match q_text x with
           | [] => {| mask := mask c; dirflag := dirflag c; valf := valf c; prods := prods c; queue := q'; stopping := stopping c; cons := CExit;
-                     seqno := seqno c; oseqno := oseqno c; file := file c; stopper := stopper c; pushed := pushed c; wrote := wrote c;
+                     seqno := seqno c; oseqno := oseqno c; file := file c; obuf := obuf c; stopper := stopper c; pushed := pushed c; wrote := wrote c;
                      dropped := dropped c ++ [x]; at_stop := at_stop c; after_stop := after_stop c |}
           | _ :: _ => {| mask := mask c; dirflag := dirflag c; valf := valf c; prods := prods c; queue := q'; stopping := stopping c; cons := CWrite x;
-                         seqno := seqno c; oseqno := oseqno c; file := file c; stopper := stopper c; pushed := pushed c; wrote := wrote c;
+                         seqno := seqno c; oseqno := oseqno c; file := file c; obuf := obuf c; stopper := stopper c; pushed := pushed c; wrote := wrote c;
                          dropped := dropped c; at_stop := at_stop c; after_stop := after_stop c |}
           end
       end
@@ -142,7 +146,11 @@ Definition step_cons (c : config) : config :=
          stopping := stopping c; cons := CSample;
          seqno := if useseq then S (seqno c) else seqno c;
          oseqno := if useseq then oseqno c else S (oseqno c);
-         file := file c ++ [(n, rest (dirflag c) (q_val x) (q_text x))]; stopper := stopper c;
+         (* unbuffered path of process_logline (no "buffer", no "nolf" flag):
+              get_stream() << ostr.str() << msg_ptr->_str;     the line goes into the stream's buffer
+              get_stream() << endl;                             '\n' and FLUSH: the buffer goes to the file *)
+         file := file c ++ (obuf c ++ [(n, rest (dirflag c) (q_val x) (q_text x))]); obuf := [];
+         stopper := stopper c;
          pushed := pushed c; wrote := wrote c ++ [x]; dropped := dropped c;
          at_stop := at_stop c; after_stop := after_stop c |}
   | CExit => c
@@ -152,16 +160,16 @@ Definition step_cons (c : config) : config :=
 Definition step_stop (c : config) : config :=
   match stopper c with
   | SIdle => {| mask := mask c; dirflag := dirflag c; valf := valf c; prods := prods c; queue := queue c; stopping := true; cons := cons c;
-                seqno := seqno c; oseqno := oseqno c; file := file c; stopper := SReq; pushed := pushed c; wrote := wrote c;
+                seqno := seqno c; oseqno := oseqno c; file := file c; obuf := obuf c; stopper := SReq; pushed := pushed c; wrote := wrote c;
                 dropped := dropped c; at_stop := pushed c; after_stop := [] |}
   | SReq => let x := {| q_src := None; q_text := []; q_val := 0%Z |} in     (* enqueue(std::string()): val defaults to 0 *)
             let (q', _) := enqueue (queue c) x in
             {| mask := mask c; dirflag := dirflag c; valf := valf c; prods := prods c; queue := q'; stopping := stopping c; cons := cons c;
-               seqno := seqno c; oseqno := oseqno c; file := file c; stopper := SPushed; pushed := pushed c ++ [x]; wrote := wrote c;
+               seqno := seqno c; oseqno := oseqno c; file := file c; obuf := obuf c; stopper := SPushed; pushed := pushed c ++ [x]; wrote := wrote c;
                dropped := dropped c; at_stop := at_stop c; after_stop := after_stop c ++ [x] |}
   | SPushed => match cons c with
                | CExit => {| mask := mask c; dirflag := dirflag c; valf := valf c; prods := prods c; queue := queue c; stopping := stopping c; cons := cons c;
-                             seqno := seqno c; oseqno := oseqno c; file := file c; stopper := SDone; pushed := pushed c; wrote := wrote c;
+                             seqno := seqno c; oseqno := oseqno c; file := file c; obuf := obuf c; stopper := SDone; pushed := pushed c; wrote := wrote c;
                              dropped := dropped c; at_stop := at_stop c; after_stop := after_stop c |}
                | _ => c                                   (* join blocks *)
                end
